@@ -40,17 +40,63 @@ type bmlEnv struct {
 	owner    string
 	spA, spB sdk.AccAddress
 	h        int64
+	when     []string // violations of the when-condition of [C02.expire.nopanic], collected before every end blocker run
 }
 
 // run the sao and model end blockers of every height below target, then stand at target
 func (e *bmlEnv) to(target int64) {
 	for e.h < target {
 		c := e.Ctx.WithBlockHeight(e.h)
+		e.checkWhen(c)
 		saomodule.EndBlocker(c, e.App.SaoKeeper)
 		modelmodule.EndBlocker(c, e.App.ModelKeeper)
 		e.h++
 	}
 	e.Ctx = e.Ctx.WithBlockHeight(e.h)
+}
+
+// checkWhen evaluates, for every shard the end blocker is about to hand to HandleExpiredShard, the condition under which
+// that function is proved not to panic (clause [C02.expire.nopanic] of its contract in /repo/x/sao/keeper/zz_verif_contracts.go)
+func (e *bmlEnv) checkWhen(c sdk.Context) {
+	es, found := e.App.SaoKeeper.GetExpiredShard(c, uint64(c.BlockHeight()))
+	if !found {
+		return
+	}
+	say := func(id uint64, f string, a ...interface{}) {
+		e.when = append(e.when, fmt.Sprintf("height %d, scheduled shard %d: ", c.BlockHeight(), id)+fmt.Sprintf(f, a...))
+	}
+	for _, id := range es.ShardList {
+		sh, ok := e.App.OrderKeeper.GetShard(c, id)
+		if !ok {
+			continue
+		}
+		o, ok := e.App.OrderKeeper.GetOrder(c, sh.OrderId)
+		if !ok {
+			continue
+		}
+		if _, err := sdk.AccAddressFromBech32(sh.Sp); err != nil {
+			say(id, "provider %q is not an address", sh.Sp)
+		}
+		if o.Amount.Amount.IsNil() || o.Amount.Amount.IsNegative() || sdk.ValidateDenom(o.Amount.Denom) != nil {
+			say(id, "order %d amount %v", o.Id, o.Amount)
+		}
+		if d, ok := e.App.NodeKeeper.GetPledgeDebt(c, sh.Sp); ok {
+			if sdk.ValidateDenom(d.Debt.Denom) != nil || d.Debt.Denom != sh.Pledge.Denom {
+				say(id, "pledge debt %v against shard pledge %v", d.Debt, sh.Pledge)
+			}
+		}
+		if pl, ok := e.App.NodeKeeper.GetPledge(c, sh.Sp); ok {
+			if pl.TotalShardPledged.Denom != sh.Pledge.Denom || pl.TotalShardPledged.Amount.LT(sh.Pledge.Amount) {
+				say(id, "provider's TotalShardPledged %v does not cover the shard's pledge %v", pl.TotalShardPledged, sh.Pledge)
+			}
+		}
+		if len(sh.RenewInfos) > 0 {
+			ro, ok := e.App.OrderKeeper.GetOrder(c, sh.RenewInfos[0].OrderId)
+			if !ok || ro.Amount.Amount.IsNil() || ro.Amount.Amount.IsNegative() || sdk.ValidateDenom(ro.Amount.Denom) != nil {
+				say(id, "queued renewal order %d missing or with amount %v", sh.RenewInfos[0].OrderId, ro.Amount)
+			}
+		}
+	}
 }
 
 func (e *bmlEnv) registerSp(sp sdk.AccAddress) {
@@ -142,11 +188,18 @@ func (e *bmlEnv) listing() []string {
 	return bad
 }
 
+var bmlWhen []string // when-condition violations of the histories run so far
+
 func bmlHistory(t *testing.T, before, during int, late bool) []string {
 	re := newReplayEnv(t, 4)
 	e := &bmlEnv{replayEnv: re, t: t, spA: re.Addrs[2], spB: re.Addrs[3], h: re.Height}
 	e.owner = replayDid(t, bmlSecret)
 	e.bindAccount(e.Addrs[1], e.owner)
+	defer func() {
+		for _, w := range e.when {
+			bmlWhen = append(bmlWhen, fmt.Sprintf("renewals before/during migration %d/%d (late=%v), %s", before, during, late, w))
+		}
+	}()
 	e.to(10)
 	e.registerSp(e.spA)
 	orderId := e.store()
@@ -264,5 +317,28 @@ func bmlAll(t *testing.T, late bool, clause string) {
 	t.Logf("BOUNDED-CHECK %s: %d of %d histories keep orders and shards consistent", clause, n, total)
 	for _, b := range all {
 		t.Errorf("C13 violated (every shard an order lists exists / every shard is listed by the orders it names): %s", b)
+	}
+}
+
+// Bounded stand-in for the hypothesis of [C02.expire.nopanic] (property C02): HandleExpiredShard is proved not to panic when the
+// scheduled shard satisfies a condition (valid provider address, the provider's TotalShardPledged covers the shard's pledge,
+// consistent denominations, the queued renewal order exists). The end blocker that calls it is not under contract (the condition
+// follows from a sum invariant the contract language cannot state), so the condition is evaluated here on the real state right
+// before every end blocker run of the 18 histories above (prompt and late completion). Runs each history to the end of all paid
+// periods: a panic of the end blocker would also fail the test.
+func TestBoundedExpireWhenCondition(t *testing.T) {
+	bmlWhen = nil
+	n := 0
+	for _, late := range []bool{false, true} {
+		for before := 0; before <= 2; before++ {
+			for during := 0; during <= 2; during++ {
+				bmlHistory(t, before, during, late)
+				n++
+			}
+		}
+	}
+	t.Logf("BOUNDED-CHECK C02.expire.when: %d histories, %d violations of the no-panic condition of HandleExpiredShard", n, len(bmlWhen))
+	for _, w := range bmlWhen {
+		t.Errorf("C02 violated (hypothesis of the no-panic clause of HandleExpiredShard): %s", w)
 	}
 }
